@@ -2,8 +2,7 @@
      init_connection   <- LocalPeerService::initialise_connection   (synchronisation/peer_inbound_service.rs)
      get_token_type, create_invite, accept_invite, invite_accepted  <- network/peer_manager.rs
      token / derived tokens                                        <- MeetingSecret::{token, derive_token} (security.rs)
-   The code is reproduced AS IT IS (accept_invite registers the same invitation again when it is
-   called twice with it).  Keys, invitation ids and
+   The code is reproduced AS IT IS at the current commit.  Keys, invitation ids and
    secrets are indices; signatures are symbolic (who signed what).  No proofs here. *)
 From DV Require Export Base.
 Local Open Scope N_scope.
@@ -68,13 +67,21 @@ Definition push (m : pm) (tk : token) (t : ttype) : pm :=
 (* create_invite: a fresh OwnedInvite row (id = inv) registered under the invitation's token *)
 Definition create_invite (m : pm) (inv : N) : pm := push m (TkInvite inv) (TOwned inv).
 
-(* accept_invite: the bytes must deserialize and name this application *)
+(* accept_invite: the bytes must deserialize and name this application; an invitation that is already
+   in the table (accepted before, or created by this instance) is not registered again (fix 1e2cdf6) *)
 Inductive invite_bytes := Garbage | InviteFor (inv : N) (app : N) (signer : option key).
+Definition is_owned (inv : N) (t : ttype) : bool := match t with TOwned i => N.eqb i inv | _ => false end.
+Definition is_invite (inv : N) (t : ttype) : bool := match t with TInvite i _ _ => N.eqb i inv | _ => false end.
+Definition registered (inv : N) (e : token * ttype) : bool :=
+  token_eqb (fst e) (TkInvite inv) && (is_owned inv (snd e) || is_invite inv (snd e)).
 Definition accept_invite (m : pm) (b : invite_bytes) : option pm :=
   match b with
   | Garbage => None
   | InviteFor inv app signer =>
-      if N.eqb app (pm_app m) then Some (push m (TkInvite inv) (TInvite inv app signer)) else None
+      if N.eqb app (pm_app m) then
+        if existsb (registered inv) (pm_tokens m) then Some m
+        else Some (push m (TkInvite inv) (TInvite inv app signer))
+      else None
   end.
 
 (* remove the first entry under token tk that satisfies p (Vec::position + remove) *)
@@ -83,9 +90,6 @@ Fixpoint remove_first (tk : token) (p : ttype -> bool) (l : list (token * ttype)
   | [] => []
   | e :: r => if token_eqb (fst e) tk && p (snd e) then r else e :: remove_first tk p r
   end.
-Definition is_owned (inv : N) (t : ttype) : bool := match t with TOwned i => N.eqb i inv | _ => false end.
-Definition is_invite (inv : N) (t : ttype) : bool := match t with TInvite i _ _ => N.eqb i inv | _ => false end.
-
 (* invite_accepted: the new peer becomes an allowed peer under its pairwise token, and the consumed
    invitation is removed from the list of ITS OWN token (fix 2163820; before it, the list of the new
    peer's pairwise token was searched and the invitation stayed usable until restart) *)
